@@ -1,2 +1,72 @@
-(* C04 statements pinned here *)
-From A1 Require Import Uper.Reader.
+(* C04 — decoders never panic, hang or over-read on arbitrary input.  Statements pinned here.
+   In the model every partial Rust operation (indexing, unchecked arithmetic per profile, allocation,
+   unwrap, debug assertions) is an explicit [Panic] outcome, so "never panics" is [is_panic _ = false]. *)
+From A1 Require Import Per.Prim Per.Proofs.
+From A1 Require Props.C10 Props.C11.
+From A1 Require Der.Prim Der.TotalProofs.
+Local Open Scope N_scope.
+
+(** L0: the bit copy under every read never panics when positions do not overflow *)
+Theorem C04_bit_copy_no_panic : forall m src sp dst dp len,
+  Forall (fun b => b < 256) src -> Forall (fun b => b < 256) dst ->
+  sp + len < two64 -> dp + len < two64 ->
+  is_panic (A1.Bits.Copy.bit_string_copy_bulked m src sp dst dp len) = false.
+Proof. exact C11.C11_bulk_no_panic. Qed.
+
+(** L1: the PER primitive readers on arbitrary sources, both cargo profiles *)
+Theorem C04_per_readers_no_panic : forall m s,
+  np (r_nnbi m None None s) /\
+  (forall lb ub, nn_bounded lb ub ->
+     opt_or lb 0 + 2 ^ N.size (opt_or ub I64_MAX - opt_or lb 0) <= two64 -> np (r_nnbi m lb ub s)) /\
+  (forall lb ub, opt_or lb 0 < two64 -> ~ Known_C10_length_semi_or_large_bound lb ub ->
+     np (r_length_determinant m lb ub s)) /\
+  (forall k, np (r_2s_compliment k s)) /\
+  (forall lb ub, np (r_constrained m lb ub s)) /\
+  np (r_normally_small m s) /\
+  (forall lb, np (r_semi_constrained m lb s)) /\
+  np (r_unconstrained m s) /\
+  (forall std ext, std < two64 -> np (r_enumeration_index m std ext s)).
+Proof. exact C10.C10_no_panic_readers. Qed.
+
+Theorem C04_octetstring_reader_no_panic : forall m lb ub extensible s,
+  ~ Known_C10_length_semi_or_large_bound lb ub -> opt_or lb 0 <= opt_or ub I64_MAX ->
+  np (r_octetstring m lb ub extensible s).
+Proof. exact C10.C10_no_panic_octetstring_read. Qed.
+
+(* the listed finding F04-1 / F10-3: a 63-bit length from the input is allocated *)
+Theorem C04_refuted_untrusted_length_alloc :
+  exists m lb bytes,
+    is_panic (r_octetstring m (Some lb) None false (src_of_bytes bytes (8 * blen bytes))) = true.
+Proof.
+  exists release_mode, 1, [255; 255; 255; 255; 255; 255; 255; 255]. vm_compute. reflexivity.
+Qed.
+
+(** no success beyond the declared length: a bit read succeeds only strictly inside it *)
+Theorem C04_read_bit_within_len : forall s b s',
+  r_bit s = Ok (b, s') -> s_pos s < s_len s /\ s_pos s' = s_pos s + 1 /\ s_len s' = s_len s.
+Proof. exact A1.Der.TotalProofs.read_bit_within_len. Qed.
+
+Theorem C04_read_bits_within_len : forall s dst doff n bs s',
+  r_bits_into s dst doff n = Ok (bs, s') ->
+  s_pos s + n <= s_len s \/ s_len s < s_pos s /\ n = 0.
+Proof. exact A1.Der.TotalProofs.read_bits_within_len. Qed.
+
+(** DER: the primitive readers and the implemented BasicReader arms are total on every byte string *)
+Theorem C04_der_total : forall inp,
+  is_panic (A1.Der.Prim.read_length inp) = false /\
+  is_panic (A1.Der.Prim.read_identifier inp) = false /\
+  is_panic (A1.Der.Prim.read_boolean inp) = false /\
+  (forall n, is_panic (A1.Der.Prim.read_integer_i64 n inp) = false) /\
+  (forall n, is_panic (A1.Der.Prim.read_integer_u64 n inp) = false) /\
+  (forall k tag, is_panic (A1.Der.Prim.r_number k tag inp) = false) /\
+  (forall tag, is_panic (A1.Der.Prim.r_boolean tag inp) = false) /\
+  (forall n tag, is_panic (A1.Der.Prim.r_enumerated n tag inp) = false).
+Proof. exact A1.Der.TotalProofs.der_total. Qed.
+
+Print Assumptions C04_bit_copy_no_panic.
+Print Assumptions C04_per_readers_no_panic.
+Print Assumptions C04_octetstring_reader_no_panic.
+Print Assumptions C04_refuted_untrusted_length_alloc.
+Print Assumptions C04_read_bit_within_len.
+Print Assumptions C04_read_bits_within_len.
+Print Assumptions C04_der_total.
